@@ -114,6 +114,16 @@ def build():
     h.root('concat__m3_2d', g + '(a: &Matrix3<S>, b: &Matrix3<S>) -> Matrix3<S>', 'Transform::<Point2<S>>::concat(a, b)', ('value', A.matmul(sm('a0', 3), sm('a1', 3))))
     h.root('concat__m3_3d', g + '(a: &Matrix3<S>, b: &Matrix3<S>) -> Matrix3<S>', 'Transform::<Point3<S>>::concat(a, b)', ('value', A.matmul(sm('a0', 3), sm('a1', 3))))
     h.root('concat__m4', g + '(a: &Matrix4<S>, b: &Matrix4<S>) -> Matrix4<S>', 'Transform::<Point3<S>>::concat(a, b)', ('value', A.matmul(sm('a0', 4), sm('a1', 4))))
+    # the ring's neutral elements as the empty sum / product, and short sums / products (the general fold is C17's)
+    for n in (2, 3, 4):
+        M = 'Matrix%d<S>' % n
+        a, b = sm('a0', n), sm('a1', n)
+        zero = [[Z] * n for _ in range(n)]
+        for k, args, items, se, pe in ((0, '()', '', zero, A.identity(n)), (1, '(a: %s)' % M, 'a', a, a),
+                                       (2, '(a: %s, b: %s)' % (M, M), 'a, b', [[a[c][r] + b[c][r] for r in range(n)] for c in range(n)], A.matmul(a, b))):
+            arr = 'IntoIterator::into_iter([%s] as [%s; %d])' % (items, M, k)
+            h.root('sum_n%d__m%d' % (k, n), g + args + ' -> ' + M, '<%s as std::iter::Sum>::sum(%s)' % (M, arr), ('value', se))
+            h.root('product_n%d__m%d' % (k, n), g + args + ' -> ' + M, '<%s as std::iter::Product>::product(%s)' % (M, arr), ('value', pe))
     return h
 
 
